@@ -183,7 +183,7 @@ def h_pos(idx, doc, prop):
             if let Ok((_, tr)) = &r {
                 assert!(u32::from(tr.start()) == s && u32::from(tr.end()) == e, "T2/K3: an incoming position means the same offset on both sides");
             }
-            kani::cover!(s < e, "valid non-empty range");
+            @NONEMPTY_COVER@
         }
         _ => {%(invalid)s}
     }''' % {'invalid': '''
@@ -196,6 +196,7 @@ def h_pos(idx, doc, prop):
                 @ASTRAL_COVER@
             }
             kani::cover!(r.is_err(), "invalid range rejected");''' if prop == 'c15' else ''}
+    body_valid = body_valid.replace('@NONEMPTY_COVER@', 'kani::cover!(s < e, "valid non-empty range");' if len(doc) > 0 else 'kani::cover!(true, "valid empty range");')
     body_valid = body_valid.replace('@ASTRAL_COVER@', 'kani::cover!(true, "column inside a surrogate pair converted to a non-boundary range");' if any(ord(c) > 0xFFFF for c in doc) else '')
     return '''
 #[kani::proof]
@@ -308,16 +309,17 @@ def hl_pairs(doc, tier):
     return singles, pairs
 
 
-def h_c19(idx, doc, tier, max_cases):
+def c19_cases(doc, tier):
     singles, pairs = hl_pairs(doc, tier)
-    cases = [[h] for h in singles] + [list(p) for p in pairs]
-    cases = cases[:max_cases]
-    if not cases:
-        return None
+    # pairs first, and among them those whose first token does not start at offset 0: they exercise the relative encoding
+    pairs = sorted(pairs, key=lambda p: (p[0][0] == 0, p))
+    return [list(p) for p in pairs] + [[h] for h in singles]
+
+
+def h_c19(idx, chunk, doc, cases):
     body = ''
     for hls in cases:
         exp = expected_tokens(doc, hls)
-        tags = ', '.join('t%d' % k for k in range(len(hls)))
         lets = ''.join('        let t%d = any_tag();\n' % k for k in range(len(hls)))
         mk = ', '.join('HlRange { range: TextRange::new(TextSize::from(%d), TextSize::from(%d)), tag: t%d }' % (a, b, k) for k, (a, b) in enumerate(hls))
         checks = ''
@@ -334,11 +336,11 @@ def h_c19(idx, doc, tier, max_cases):
     return '''
 #[kani::proof]
 #[kani::unwind(%(unw)d)]
-fn c19_d%(idx)d() {
+fn c19_d%(idx)d_%(chunk)d() {
     const DOC: &str = %(doc)s;
     let (_, m) = LineMap::normalize(doc_string(DOC));%(body)s
 }
-''' % {'idx': idx, 'doc': rs_str(doc), 'body': body, 'unw': unwind_for(doc, 4)}, len(cases)
+''' % {'idx': idx, 'chunk': chunk, 'doc': rs_str(doc), 'body': body, 'unw': unwind_for(doc, 4)}
 
 
 def generate(prop, tier, max_chars=None):
@@ -373,11 +375,17 @@ def generate(prop, tier, max_chars=None):
             text += h_pos(i, d, 'c15')
             hs.append({'name': 'c15_pos_d%d' % i, 'doc': d, 'what': 'T1-T3: arbitrary LSP range (symbolic over u32^4): no panic, valid accepted exactly, invalid rejected'})
     elif prop == 'C19':
+        # two tokens on one line with the first one not at column 0 need three characters
+        if tier == 'quick':
+            docs = ['aaa', 'a\U0001F4A3a', '\U0001F4A3aa', '\u00dfaa', '\u211daa', 'a\na', '\naa', '\U0001F4A3\n\U0001F4A3', '\U0001F4A3\U0001F4A3\U0001F4A3']
+            per, max_chunks = 1, 3
+        else:
+            docs = [d for d in ref.documents(ALPHABET, 3) if d]
+            per, max_chunks = 6, 4
         for i, d in enumerate(docs):
-            if ref.byte_len(d) == 0:
-                continue
-            r = h_c19(i, d, tier, 12 if tier == 'quick' else 40)
-            if r:
-                text += r[0]
-                hs.append({'name': 'c19_d%d' % i, 'doc': d, 'what': 'S1: %d highlight lists (1-2 ranges, symbolic tags) against the reference encoding' % r[1]})
+            cases = c19_cases(d, tier)
+            for ch in range(0, min(len(cases), per * max_chunks), per):
+                text += h_c19(i, ch // per, d, cases[ch:ch + per])
+                hs.append({'name': 'c19_d%d_%d' % (i, ch // per), 'doc': d,
+                           'what': 'S1: %d highlight lists (1-2 single-line ranges%s, symbolic tags) against the reference encoding' % (len(cases[ch:ch + per]), '' if tier == 'quick' else ' and multi-line ranges')})
     return text, hs
